@@ -179,7 +179,7 @@ def run_shard(spec):
     items = []
     if "replay" in spec:
         w = spec["replay"]
-        items = [("replay", w["program"])]
+        items = [("replay", w["program"])] if "program" in w else []
     else:
         for i in range(spec["n"]):
             rng = driver.case_rng(spec["seed"], spec["name"], i)
@@ -291,5 +291,44 @@ def run_shard(spec):
         if out[0] == "ok" and out[1] is not None:
             viol.append({"key": "invalid_option_accepted:%s" % "+".join(sorted(bo.keys())),
                          "what": "solve(%r) returned %r instead of raising" % (bo, out[1]), "program": prog, "options": bo})
+    # (c') invalid options of the primitive steps and an invalid constraint sense reaching a back-end
+    from PEPit import PEP
+    from PEPit.functions import SmoothStronglyConvexFunction
+    from PEPit.primitive_steps import inexact_gradient_step, inexact_proximal_step
+    step_cases = [("inexact_gradient_step.notion", b) for b in ["abs", "Relative", "", None, 1, "absolute "]] + \
+                 [("inexact_proximal_step.opt", b) for b in ["PD_gapIV", "pd_gapI", "", None, 3, "PD_gapI "]] + \
+                 [("constraint.sense:" + w, b) for w in ("cvxpy", "mosek") for b in ["geq", "", None, "Equality"]]
+    for j, (what, bad) in enumerate(step_cases):
+        if (j + spec.get("shard", 0)) % 2 and "replay" not in spec and spec.get("n", 10) < 100:
+            continue
+        if what.endswith("mosek") and not spec.get("extra_path"):
+            continue
+        problem = PEP()
+        f = problem.declare_function(SmoothStronglyConvexFunction, L=1., mu=.1)
+        xs = f.stationary_point()
+        x0 = problem.set_initial_point()
+        con = (x0 - xs) ** 2 <= 1
+        problem.set_initial_condition(con)
+        raised, got = None, None
+        try:
+            with contextlib.redirect_stdout(io.StringIO()):
+                if what.startswith("inexact_gradient_step"):
+                    got = inexact_gradient_step(x0, f, gamma=1., epsilon=.1, notion=bad)
+                elif what.startswith("inexact_proximal_step"):
+                    got = inexact_proximal_step(x0, f, 1., opt=bad)
+                else:
+                    x1 = x0 - f.gradient(x0)
+                    problem.set_performance_metric((x1 - xs) ** 2)
+                    con.equality_or_inequality = bad
+                    got = problem.solve(verbose=0, wrapper=what.split(":")[1], solver="CLARABEL")
+        except Exception as ex:
+            raised = type(ex).__name__
+        counters["invalid_option_cases"] = counters.get("invalid_option_cases", 0) + 1
+        counters["invalid_step_option_cases"] = counters.get("invalid_step_option_cases", 0) + 1
+        sig.add("invalid_option|%s|%r|%s" % (what, bad, raised))
+        if raised is None:
+            viol.append({"key": "invalid_option_accepted:%s" % what.split(":")[0],
+                         "what": "%s=%r was accepted (returned %s) instead of raising" % (what, bad, type(got).__name__),
+                         "step_case": [what, bad if isinstance(bad, (str, int, type(None))) else repr(bad)]})
     return {"counters": counters, "signatures": sorted(sig), "samples": samples, "violations": viol[:12],
             "observations": obs, "extra": {"shard_wall_s": round(time.time() - t0, 1)}}
